@@ -33,11 +33,19 @@ def base_name(path):
     return mod + "::" + n
 
 
+def _asyncish(f):
+    return bool(f["async"]) or "Future<" in f["ret"] or "dyn core::future" in f["ret"] or "Pin<alloc::boxed::Box<(dyn" in f["ret"]
+
+
+_TWIN_OF = {}      # path -> canonical (sync) path, for twins paired by their shared template location rather than by name
+
+
 def twin_pairs(ctx):
     by = {}
     for f in ctx.user_fns():
         by.setdefault(base_name(f["path"]), []).append(f)
     pairs = []
+    paired = set()
     for k, fs in by.items():
         if len(fs) == 2:
             a, b = fs
@@ -45,12 +53,28 @@ def twin_pairs(ctx):
             sb = "async" in b["path"].rpartition("::")[2]
             if sa != sb:
                 pairs.append((b, a) if sa else (a, b))
+                paired |= {a["path"], b["path"]}
+    # instantiations of one `duplicate_item` template share their source location whatever they are called
+    _TWIN_OF.clear()
+    byloc = {}
+    for f in ctx.user_fns():
+        bl = (f.get("body") or {}).get("loc")       # the body block comes from the template for every instantiation; the `fn`/`async` tokens may not
+        if f["path"] not in paired and bl:
+            byloc.setdefault(bl, []).append(f)
+    for loc, fs in byloc.items():
+        if len(fs) == 2 and _asyncish(fs[0]) != _asyncish(fs[1]):
+            sfn, afn = (fs[1], fs[0]) if _asyncish(fs[0]) else (fs[0], fs[1])
+            pairs.append((sfn, afn))
+            _TWIN_OF[afn["path"]] = sfn["path"]
+            _TWIN_OF[sfn["path"]] = sfn["path"]
     return sorted(pairs, key=lambda p: p[0]["path"])
 
 
 def canon_fn(fn, local):
     if fn in TWIN_CALLEE:
         return TWIN_CALLEE[fn]
+    if fn in _TWIN_OF:
+        return _TWIN_OF[fn]
     if fn in local:
         return base_name(fn)
     return fn
@@ -229,6 +253,10 @@ def effect_skeleton(ctx, f):
                     node = e.d["arg_nodes"][1]
                     size = node["e"]["ty"] if node["k"] == "Ref" else node["ty"]
                 cf = canon_fn(fn, local) if fn in local else ""
+                # a transfer through a `take(limit)` view of the stream is a different transfer: it stops at the limit
+                lim = [t for a_ in e.d["args"][:1] for t in subterms(unmut(a_)) if isinstance(t, tuple) and t and t[0] == "call" and t[1].endswith("::take") and len(t[2]) == 2]
+                if lim:
+                    size = (size + " " if size else "") + "take(%s)" % tstr(unmut(lim[0][2][1]))[:40]
                 if how == "to_end":
                     kinds_t = ("read-to-end",)
                 else:
@@ -247,7 +275,7 @@ def effect_skeleton(ctx, f):
         # a JSON parse that drains a reader is the same transfer as read_to_end followed by a parse of the buffer
         merged = []
         for s in sk:
-            if s == ("json-parse",) and merged and merged[-1][0] == ("read-to-end",):
+            if s == ("json-parse",) and merged and merged[-1][0] == ("read-to-end",) and "take(" not in (merged[-1][2] or ""):
                 merged[-1] = (("read-to-end+json",),)
             elif s[0] == ("read-to-end",) and s[3] == "" and s[1] == "":
                 merged.append(s)
@@ -257,7 +285,7 @@ def effect_skeleton(ctx, f):
         norm_sk = []
         for s in merged:
             if s[0] == ("read-to-end",) and len(s) > 1:
-                norm_sk.append((("read-to-end",),))
+                norm_sk.append((("read-to-end",), s[2]) if "take(" in (s[2] or "") else (("read-to-end",),))
             else:
                 norm_sk.append(s)
         # collapse [read-to-end, json-parse] and [read-to-end(from_reader)] to one token
@@ -268,7 +296,7 @@ def effect_skeleton(ctx, f):
             if s[0] == ("read-to-end",):
                 if i + 1 < len(norm_sk) and norm_sk[i + 1] == ("json-parse",):
                     i += 1
-                col.append(("read-to-end+json?",))
+                col.append(("read-to-end+json?",) + tuple(s[1:]))
             elif s == (("read-to-end+json",),):
                 col.append(("read-to-end+json?",))
             else:
